@@ -292,6 +292,9 @@ where
         let mut insert_op = None;
         let mut update_op = None;
 
+        // Verification hook: the closures below run under the shard's write lock.
+        #[cfg(mini_moka_verif)]
+        let _quiet = crate::verif::NoSwitch::new();
         self.inner
             .cache
             .entry(Arc::clone(&key))
@@ -1542,6 +1545,9 @@ fn is_expired_entry_ao(
     entry: &impl AccessTime,
     now: Instant,
 ) -> bool {
+    // Verification hook: every idle-timer / watermark check is a scheduling point.
+    #[cfg(mini_moka_verif)]
+    crate::verif::sp("chk.ao");
     if let Some(ts) = entry.last_accessed() {
         if let Some(va) = valid_after {
             if ts < *va {
@@ -1566,6 +1572,9 @@ fn is_expired_entry_wo(
     entry: &impl AccessTime,
     now: Instant,
 ) -> bool {
+    // Verification hook: every ttl / watermark check is a scheduling point.
+    #[cfg(mini_moka_verif)]
+    crate::verif::sp("chk.wo");
     if let Some(ts) = entry.last_modified() {
         if let Some(va) = valid_after {
             if ts < *va {
